@@ -40,6 +40,14 @@ def _member_name(
     return part
 
 
+def _array_index(part: Union[int, str]) -> int:
+    """Return the pointer part _part_ as an array index."""
+    try:
+        return int(part)
+    except ValueError as err:
+        raise JSONPatchError(f"invalid array index {part!r}") from err
+
+
 class Op(ABC):
     """One of the JSON Patch operations."""
 
@@ -86,7 +94,7 @@ class OpAdd(Op):
                 else:
                     raise JSONPatchError("index out of range")
             else:
-                parent.insert(int(target), self.value)
+                parent.insert(_array_index(target), self.value)
         elif isinstance(parent, MutableMapping):
             parent[_member_name(parent, target)] = self.value
         else:
@@ -128,7 +136,7 @@ class OpAddNe(OpAdd):
             if obj is UNDEFINED:
                 parent.append(self.value)
             else:
-                parent.insert(int(target), self.value)
+                parent.insert(_array_index(target), self.value)
         elif (
             isinstance(parent, MutableMapping)
             and _member_name(parent, target) not in parent
@@ -165,7 +173,7 @@ class OpAddAp(OpAdd):
             if obj is UNDEFINED:
                 parent.append(self.value)
             else:
-                parent.insert(int(target), self.value)
+                parent.insert(_array_index(target), self.value)
         elif isinstance(parent, MutableMapping):
             parent[_member_name(parent, target)] = self.value
         else:
@@ -196,7 +204,7 @@ class OpRemove(Op):
         if isinstance(parent, MutableSequence):
             if obj is UNDEFINED:
                 raise JSONPatchError("can't remove nonexistent item")
-            del parent[int(self.path.parts[-1])]
+            del parent[_array_index(self.path.parts[-1])]
         elif isinstance(parent, MutableMapping):
             if obj is UNDEFINED:
                 raise JSONPatchError("can't remove nonexistent property")
@@ -234,7 +242,7 @@ class OpReplace(Op):
         if isinstance(parent, MutableSequence):
             if obj is UNDEFINED:
                 raise JSONPatchError("can't replace nonexistent item")
-            parent[int(self.path.parts[-1])] = self.value
+            parent[_array_index(self.path.parts[-1])] = self.value
         elif isinstance(parent, MutableMapping):
             if obj is UNDEFINED:
                 raise JSONPatchError("can't replace nonexistent property")
@@ -274,7 +282,7 @@ class OpMove(Op):
             raise JSONPatchError("source object does not exist")
 
         if isinstance(source_parent, MutableSequence):
-            del source_parent[int(self.source.parts[-1])]
+            del source_parent[_array_index(self.source.parts[-1])]
         if isinstance(source_parent, MutableMapping):
             del source_parent[_member_name(source_parent, self.source.parts[-1])]
 
